@@ -359,7 +359,7 @@ func TestC12(t *testing.T) {
 	curProp = "C12"
 	r := vf.NewRec("C12")
 	defer r.Finish(t)
-	guard.StartWatchdog(*vf.Out, "C12")
+	guard.StartWatchdog(*vf.Out, vf.Label("C12"))
 
 	for _, rf := range r.LoadReplays(t) {
 		var c caseC12
